@@ -168,6 +168,8 @@ pub struct Alph {
     pub set_pingresp_to: Vec<u64>,
     /// index of the first topic of `TOPICS` this configuration uses (`topics` many from there)
     pub topic_base: usize,
+    /// v5.0: DISCONNECT may carry Session Expiry Interval 0 (sent by a client / received by a server)
+    pub disconnect_expiry0: bool,
     /// the client may pipeline PUBLISH packets behind its CONNECT (they arrive while the server owes the CONNACK)
     pub early_peer_traffic: bool,
     /// identifiers the application reserves itself (register_packet_id) for a publish instead of acquiring
@@ -256,6 +258,8 @@ pub enum Act {
     Unsub,
     Pingreq,
     Disconnect,
+    /// v5.0 DISCONNECT carrying Session Expiry Interval 0 (the session ends with this connection)
+    DisconnectExpiry0,
     Auth,
     Timer(Tk),
     Closed,
@@ -280,6 +284,8 @@ pub enum Act {
     PPingreq,
     PPingresp,
     PDisconnect,
+    /// the peer's v5.0 DISCONNECT carrying Session Expiry Interval 0 (client to server only)
+    PDisconnectExpiry0,
     PAuth,
     /// first `k` bytes of a PUBLISH q0 frame, then nothing (frame cut by the transport)
     PPartial(u8),
@@ -301,6 +307,7 @@ pub fn act_kind(a: &Act) -> String {
         Act::Unsub => "Unsub".into(),
         Act::Pingreq => "Pingreq".into(),
         Act::Disconnect => "Disconnect".into(),
+        Act::DisconnectExpiry0 => "Disconnect(sei=0)".into(),
         Act::Auth => "Auth".into(),
         Act::Timer(k) => format!("Timer({k:?})"),
         Act::Closed => "Closed".into(),
@@ -323,6 +330,7 @@ pub fn act_kind(a: &Act) -> String {
         Act::PPingreq => "PPingreq".into(),
         Act::PPingresp => "PPingresp".into(),
         Act::PDisconnect => "PDisconnect".into(),
+        Act::PDisconnectExpiry0 => "PDisconnect(sei=0)".into(),
         Act::PAuth => "PAuth".into(),
         Act::PPartial(_) => "PPartial".into(),
         Act::PRaw(_) => "PRaw".into(),
@@ -909,6 +917,7 @@ impl<P: Pid> Ep<P> {
             Act::PPingreq => AP::Pingreq { ver },
             Act::PPingresp => AP::Pingresp { ver },
             Act::PDisconnect => AP::Disconnect { ver, code: None, props: None },
+            Act::PDisconnectExpiry0 => AP::Disconnect { ver, code: Some(0), props: Some(vec![Prop { id: 0x11, val: PVal::U32(0) }]) },
             Act::PAuth => AP::Auth { code: None, props: None },
             _ => return None,
         })
@@ -1054,6 +1063,9 @@ impl<P: Pid> World for Ep<P> {
             }
             if al.disconnect && (m.as_client || self.v5()) {
                 v.push(Act::Disconnect);
+                if al.disconnect_expiry0 && self.v5() && m.as_client {
+                    v.push(Act::DisconnectExpiry0);
+                }
             }
         }
         if version_known && al.auth && self.v5() && m.st != St::Disc {
@@ -1186,6 +1198,9 @@ impl<P: Pid> World for Ep<P> {
             }
             if al.peer_disconnect && (!m.as_client || self.v5()) {
                 v.push(Act::PDisconnect);
+                if al.disconnect_expiry0 && self.v5() && !m.as_client {
+                    v.push(Act::PDisconnectExpiry0);
+                }
             }
             if al.peer_auth && self.v5() {
                 v.push(Act::PAuth);
@@ -1347,6 +1362,7 @@ impl<P: Pid> World for Ep<P> {
             }
             Act::Pingreq => calls.push(self.lib_send(&AP::Pingreq { ver })),
             Act::Disconnect => calls.push(self.lib_send(&AP::Disconnect { ver, code: None, props: None })),
+            Act::DisconnectExpiry0 => calls.push(self.lib_send(&AP::Disconnect { ver, code: Some(0), props: Some(vec![Prop { id: 0x11, val: PVal::U32(0) }]) })),
             Act::Auth => calls.push(self.lib_send(&AP::Auth { code: None, props: None })),
             Act::Timer(k) => {
                 self.m.timer_fires += 1;
